@@ -716,19 +716,32 @@ theorem bitsOf_drop : ∀ (k n : Nat) (v : Int), (Py.bitsOf v n).drop k = Py.bit
     rw [bitsOf_succ, List.drop_succ_cons, bitsOf_drop k n (v / 2), Nat.add_sub_add_right,
       Int.ediv_ediv_of_nonneg (by norm_num), pow_succ, mul_comm]
 
+/-- `x >> n` with a negative public count raises `ValueError`, in every state (nothing is traced) -/
+theorem rshiftLI_neg {a : LinComb} {n : Int} (hn : n < 0) (s : St) : rshiftLI a n s = .error .value := by
+  unfold rshiftLI
+  simp only [hn, if_true]
+
+/-- … so a completed `x >> n` had a non-negative count -/
+theorem rshiftLI_ok_nonneg {s s' : St} {a : LinComb} {n : Int} {o : Option LinComb}
+    (h : rshiftLI a n s = .ok (o, s')) : 0 ≤ n := by
+  by_contra hn
+  rw [rshiftLI_neg (not_le.mp hn)] at h
+  cases h
+
 /-- `x >> n` for `n ≥ 0` is floor division by `2^n` (on the non-negative values `to_bits` accepts) -/
 theorem rshiftLI_val {s s' : St} {a : LinComb} {n : Int} {o : Option LinComb} (hn : 0 ≤ n)
     (hi : s.ignoreErrors = false) (h : rshiftLI a n s = .ok (o, s')) :
     Same s s' ∧ valFB o = a.value / 2 ^ n.toNat ∧ valFB o = a.value >>> n.toNat := by
   unfold rshiftLI at h
+  by_cases hn' : n < 0
+  · simp only [hn', if_true, reduceCtorEq] at h
+  simp only [hn', if_false] at h
   obtain ⟨bits, s1, h1, h⟩ := bind_ok.mp h
   obtain ⟨rfl, rfl⟩ := pure_ok' h
   obtain ⟨sm, v, hr⟩ := toBits_val h1
   obtain ⟨h0, hb⟩ := hr hi
   have hlt := lt_pow_of_fits h0 hb
-  have key : valFB (fromBits (List.drop (if n ≥ 0 then n.toNat else bits.length - (-n).toNat) bits)) =
-      a.value / 2 ^ n.toNat := by
-    simp only [ge_iff_le, hn, if_true]
+  have key : valFB (fromBits (List.drop n.toNat bits)) = a.value / 2 ^ n.toNat := by
     rw [valFB_fromBits, List.map_drop, v, bitsOf_drop]
     have hq0 : 0 ≤ a.value / 2 ^ n.toNat := Int.ediv_nonneg h0 (by positivity)
     simp only [Option.getD_none] at hlt ⊢
